@@ -675,4 +675,46 @@ mod branch_hosts {
         let scalar = (0..=0x10FFFF).contains(&cp) && !(0xD800..=0xDFFF).contains(&cp);
         if scalar { assert!(got == Some((11, 1)) && ch.map(|c| c as u32 as i64) == Some(cp)); } else { assert!(got == Some((10, 0))); }
     }
+
+    fn outer_arg_i64(r: &Result<Computation, i32>) -> Option<i64> {
+        match r { Ok(Computation::VApp(App(_, a))) => match a.as_ref() { Value::SemValue(SemValue::Literal(Literal::Integer(IntegerLiteral::Int64(v)))) => Some(*v), _ => None }, _ => None }
+    }
+    /// whole str_parse_int_branch, BOUNDED (one fixed text per harness): a decimal Int64 -> when_some (3rd) applied to exactly that
+    /// integer; anything else (empty, not a number, out of the Int64 range) -> when_none (2nd); never fails
+    fn check_parse(text: &str, want: Option<i64>) {
+        let args = [SemValue::Literal(Literal::String(Utf8String::from(text))), marker(10), marker(11)];
+        let r = call!(str_parse_int_branch, &args);
+        let (got, v) = (selected(&r), outer_arg_i64(&r));
+        core::mem::forget(r); core::mem::forget(args);
+        match want { Some(w) => assert!(got == Some((11, 1)) && v == Some(w)), None => assert!(got == Some((10, 0))) }
+    }
+    #[kani::proof] #[kani::unwind(22)] fn str_parse_int_whole_negative() { check_parse("-7", Some(-7)) }
+    #[kani::proof] #[kani::unwind(22)] fn str_parse_int_whole_min() { check_parse("-9223372036854775808", Some(i64::MIN)) }
+    #[kani::proof] #[kani::unwind(22)] fn str_parse_int_whole_overflow() { check_parse("9223372036854775808", None) }
+    #[kani::proof] #[kani::unwind(22)] fn str_parse_int_whole_empty() { check_parse("", None) }
+    #[kani::proof] #[kani::unwind(22)] fn str_parse_int_whole_text() { check_parse("4x", None) }
+    /// whole bytes_to_str_branch, BOUNDED (fixed buffers): valid UTF-8 -> when_valid (3rd) applied to a string; invalid -> when_invalid (2nd)
+    fn check_decode(bytes: &[u8], valid: bool) {
+        let args = [SemValue::Host(zydeco_dynamics::host::HostValue::Bytes(Rc::from(bytes))), marker(10), marker(11)];
+        let r = call!(bytes_to_str_branch, &args);
+        let got = selected(&r);
+        core::mem::forget(r); core::mem::forget(args);
+        assert!(got == Some(if valid { (11, 1) } else { (10, 0) }));
+    }
+    #[kani::proof] #[kani::unwind(8)] fn bytes_to_str_whole_valid() { check_decode(&[b'a', 0xC3, 0xA9], true) }
+    #[kani::proof] #[kani::unwind(8)] fn bytes_to_str_whole_truncated() { check_decode(&[b'a', 0xC3], false) }
+    #[kani::proof] #[kani::unwind(8)] fn bytes_to_str_whole_empty() { check_decode(&[], true) }
+
+    /// whole str_eq_branch, BOUNDED (fixed strings): equal -> when_true (3rd), different (also: equal up to a prefix, different
+    /// normalisation of the same glyph) -> when_false (4th)
+    fn check_eq(a: &str, b: &str, equal: bool) {
+        let args = [SemValue::Literal(Literal::String(Utf8String::from(a))), SemValue::Literal(Literal::String(Utf8String::from(b))), marker(10), marker(11)];
+        let r = call!(str_eq_branch, &args);
+        let got = selected(&r);
+        core::mem::forget(r); core::mem::forget(args);
+        assert!(got == Some(if equal { (10, 0) } else { (11, 0) }));
+    }
+    #[kani::proof] #[kani::unwind(8)] fn str_eq_whole_equal() { check_eq("a\u{e9}", "a\u{e9}", true) }
+    #[kani::proof] #[kani::unwind(8)] fn str_eq_whole_prefix() { check_eq("a\u{e9}", "a\u{e9}b", false) }
+    #[kani::proof] #[kani::unwind(8)] fn str_eq_whole_normalisation() { check_eq("\u{e9}", "e\u{301}", false) }
 }
